@@ -1366,11 +1366,11 @@ func main() {
 		}
 		out.Case(op, exec(op), cls, true)
 	}
-	snapMax := 1<<15 + 1
+	snapMax, nBrt := 1<<15+1, 500
 	if tier == "thorough" {
-		snapMax = 1<<18 + 1
+		snapMax, nBrt = 1<<16+1, 3000 // the encoder's output is on the op line: keep ops.txt in the tens of MB
 	}
-	for i := 0; i < 500*mult; i++ {
+	for i := 0; i < nBrt; i++ {
 		op, cls := genSnaprt(r, snapMax, lens, lateLs[:9])
 		out.Case(op, exec(op), cls, true)
 	}
@@ -1384,7 +1384,7 @@ func main() {
 		}
 		out.Case(op, exec(op), cls, true)
 	}
-	for i := 0; i < 500*mult; i++ {
+	for i := 0; i < nBrt; i++ {
 		op, cls := genLz4brt(r, snapMax, lens, lateLs[:9])
 		if op == "" {
 			out.Dist[cls]++
